@@ -160,7 +160,7 @@ def main():
     notes = []
 
     # 1. extraction (constants the models are parametric in / re-checked against)
-    r = sh([sys.executable, os.path.join(VERIF, "tools", "extract.py")], cwd=VERIF)
+    r = sh([sys.executable, os.path.join(VERIF, "tools", "extract.py"), prop], cwd=VERIF)
     log.write(r.stdout)
     extract_ok = r.returncode == 0
     if not extract_ok:
